@@ -152,7 +152,7 @@ class Check(BaseCheck):
 
     def plan(self, tier, seed):
         q = tier == 'quick'
-        specs = [{'campaign': 'sentinels'}, {'campaign': 'repotests'}]
+        specs = [{'campaign': 'sentinels'}, {'campaign': 'repotests'}, {'campaign': 'hostile_env'}]
         env.load()
         from hotxlfp import formulas
         names = formulas.supported()
@@ -529,6 +529,68 @@ class Check(BaseCheck):
                 finally:
                     sys.stderr = old
             rec.sample({'formula': f, 'callback_invocations': total, 'fault_classes': len(FAULTS)}, k=6)
+
+    # ------------------------------------------------------------------ 3b. listeners that breed, a stderr that cannot be written
+    def c_hostile_env(self, spec, rec):
+        import hotxlfp
+        formulas_ = {'callCellValue': 'A1+B2*A1', 'callRangeValue': 'SUM(A1:B2)+MAX(C1:D2)', 'callVariable': 'zz_a+zz_b', 'callFunction': 'SUM(1,MAX(2,3))+PI()'}
+        # (i) a listener that subscribes more listeners to the event it is being delivered - itself again, a fresh closure that does the same,
+        #     an unsubscribe-resubscribe pair: every evaluation still returns, within the step budget
+        for ev, f in formulas_.items():
+            for style in ('itself', 'fresh-closure', 'off-then-on', 'once-inside'):
+                p = hotxlfp.Parser()
+                calls = [0]
+
+                def breed(*a, _ev=ev, _style=style, _p=p):
+                    calls[0] += 1
+                    if calls[0] > 5000:
+                        return
+                    if _style == 'itself':
+                        _p.on(_ev, breed)
+                    elif _style == 'fresh-closure':
+                        _p.on(_ev, lambda *b: breed(*b))
+                    elif _style == 'off-then-on':
+                        _p.off(_ev, breed)
+                        _p.on(_ev, breed)
+                    else:
+                        _p.once(_ev, breed)
+                    if _ev != 'callFunction':
+                        a[-1](2)
+                p.on(ev, breed)
+                for k in range(4):
+                    calls[0] = 0
+                    got = self.guarded(p, f, 40, {'listener': 'subscribes-during-delivery:' + style, 'event': ev, 'evaluation': k})
+                    if got is not None and got[1]:
+                        rec.nt(('breed', ev, style, k))
+                    if calls[0] > 5000:
+                        rec.violation('C01/listener-subscribed-during-delivery-keeps-the-emit-alive', event=ev, style=style, formula=f, calls=calls[0])
+                        break
+        # (ii) debug output goes to a stderr that is closed, raises, or is None: the record is the one debug=False gives
+        class Raising(object):
+            def write(self, *a):
+                raise OSError('broken pipe')
+
+            def flush(self):
+                raise OSError('broken pipe')
+        closed = io.StringIO()
+        closed.close()
+        p0, pd = self.mkparser(), self.mkparser(debug=True)
+        old = sys.stderr
+        try:
+            for f in ('1/0', 'NA()', '-NA()', 'SUM(1,NA())', 'BOOM(1)', 'CF(1)+', 'nosuch', '#REF!', '1+1', 'IFERROR(1/0,2)', 'A1:B2:C3', '"a"+1', 'INDEX(lst,99)', 'ERRR(1)', ''):
+                sys.stderr = io.StringIO()
+                ref = self.guarded(p0, f, 8, {'stderr': 'ordinary', 'debug': False})
+                for name, stream in (('closed', closed), ('raising', Raising()), ('none', None)):
+                    sys.stderr = stream
+                    try:
+                        got = self.guarded(pd, f, 8, {'stderr': name, 'debug': True})
+                    finally:
+                        sys.stderr = old
+                    if got is not None and ref is not None and canon(got[0]) != canon(ref[0]):
+                        rec.violation('C01/record-with-debug-on-and-unwritable-stderr-differs', formula=f, stderr=name, debug_on=got[0], debug_off=ref[0])
+                    rec.nt(('stderr', name, f))
+        finally:
+            sys.stderr = old
 
     # ------------------------------------------------------------------ 4. the repository's tests under the contract
     def c_repotests(self, spec, rec):
